@@ -52,7 +52,7 @@ func die(code int, format string, args ...any) {
 
 var variants = map[string]string{
 	"stock": "",
-	"small": "segmentSize=4,localQueueCap=4,globalQueueInitialCap=2,contextPoolSize=2",
+	"small": "segmentSize=4,localQueueCap=4,globalQueueInitialCap=2,contextPoolSize=2,remoteSendCoalescingMaxBatch=4",
 }
 
 var goaktPkgs = []string{
@@ -133,7 +133,7 @@ func treeHash(variant string) string {
 	}
 	hashFiles(h, repo, files)
 	hashFiles(h, root, listGo(root))
-	fmt.Fprintf(h, "variant=%s knobs=%s go=%s", variant, variants[variant], goBin)
+	fmt.Fprintf(h, "variant=%s knobs=%s go=%s repo=%s", variant, variants[variant], goBin, repo)
 	return fmt.Sprintf("%x", h.Sum(nil))[:20]
 }
 
@@ -189,7 +189,7 @@ func ensureBuild(variant string) (string, error) {
 	vinstr := filepath.Join(cache, "bin", "vinstr")
 	// 1. pre-overlay: runtime library + in-package harness files
 	pre := map[string]string{}
-	for _, lib := range []string{"simrt", "simnet", "simcluster", "simfab"} {
+	for _, lib := range []string{"simrt", "simnet", "simcluster", "simfab", "simglue"} {
 		ents, _ := os.ReadDir(filepath.Join(root, lib))
 		for _, e := range ents {
 			if strings.HasSuffix(e.Name(), ".go") && !strings.HasSuffix(e.Name(), "_test.go") {
@@ -242,7 +242,18 @@ func ensureBuild(variant string) (string, error) {
 	ov := filepath.Join(dir, "overlay.json")
 	writeJSON(ov, overlayFile{merged})
 	// 5. compile the worker binary
-	out, err := run(root, env, goBin, "test", "-tags", "verif", "-vet=off", "-overlay", ov, "-c", "-o", bin, "./scen")
+	targs := []string{"test", "-tags", "verif", "-vet=off", "-overlay", ov}
+	if repo != "/repo" {
+		// a scratch copy of the repository: same harness module, replace directive redirected
+		mod, _ := os.ReadFile(filepath.Join(root, "go.mod"))
+		sum, _ := os.ReadFile(filepath.Join(root, "go.sum"))
+		mf := filepath.Join(dir, "go.mod")
+		os.WriteFile(mf, bytes.ReplaceAll(mod, []byte("=> /repo\n"), []byte("=> "+repo+"\n")), 0o644)
+		os.WriteFile(filepath.Join(dir, "go.sum"), sum, 0o644)
+		targs = append(targs, "-modfile", mf)
+	}
+	targs = append(targs, "-c", "-o", bin, "./scen")
+	out, err := run(root, env, goBin, targs...)
 	if err != nil {
 		return "", fmt.Errorf("compiling the instrumented tree failed: %v\n%s", err, out)
 	}
